@@ -12,6 +12,10 @@
                                               | contains v | last
             | DICT <n> dop*n            dop ::= update k v | remove k | get k | geteq k v | len | has k | fromlist value
             | SET <n> sop*n             sop ::= add k | remove k | has k | len | fromlist value
+            | MULTI <nregs> <n> mop*n   mop ::= new R value | dnew R | snew R | on R lop | kon R dop/sop
+                                              | filter DST SRC <ltk|eqk|nek|all|none> v | map DST SRC id | map DST SRC addk v
+                                              | dictfrom DST SRC | setfrom DST SRC
+                                        item = <hex observation>/<register 0>/<register 1>/... (lists printed, dicts / sets by len)
    output ::= R OK:<hex tostring> | R ERR | R UNSUP
             | H item*        item = <hex observation>/<hex tostring(list)> for LIST, <hex observation> for
                              DICT/SET (after update/remove/add/fromlist the observation is the new len);
@@ -201,6 +205,57 @@ let run_keyed step (init : value) (n : int) (toks : string list) : string =
    with Lua_error -> Buffer.add_string b " ERR" | Unsupported -> Buffer.add_string b " UNSUP");
   Buffer.contents b
 
+(* several live containers: a register file.  After every operation the observation and the printed form of
+   every register (lists: tostring, dicts / sets: len) *)
+let mpred name k : value -> bool =
+  match name with
+  | "all" -> (fun _ -> true)
+  | "none" -> (fun _ -> false)
+  | _ -> pred name k
+
+let show_reg (v : value) : string =
+  match v with
+  | VDict _ | VSet _ -> show (len_of v)
+  | _ -> show v
+
+let multi_step (regs : value array) (toks : string list) : value * string list =
+  let reg t = int_of_string t in
+  match toks with
+  | "new" :: r :: rest -> let (v, rest) = parse_value rest in regs.(reg r) <- v; (VLuaNil, rest)
+  | "dnew" :: r :: rest -> regs.(reg r) <- rt_dict_new; (VLuaNil, rest)
+  | "snew" :: r :: rest -> regs.(reg r) <- rt_set_new; (VLuaNil, rest)
+  | "on" :: r :: rest ->
+    let ((l', o), rest) = list_step regs.(reg r) rest in regs.(reg r) <- l'; (o, rest)
+  | "kon" :: r :: rest ->
+    let step = (match regs.(reg r) with VDict _ -> dict_step | _ -> set_step) in
+    let ((c', o), rest) = step regs.(reg r) rest in regs.(reg r) <- c'; (o, rest)
+  | "filter" :: d :: s :: p :: rest ->
+    let (k, rest) = parse_value rest in
+    regs.(reg d) <- force (rt_list_filter (mpred p k) regs.(reg s)); (VLuaNil, rest)
+  | "map" :: d :: s :: "id" :: rest ->
+    regs.(reg d) <- force (rt_list_map (fun x -> x) regs.(reg s)); (VLuaNil, rest)
+  | "map" :: d :: s :: "addk" :: rest ->
+    let (k, rest) = parse_value rest in
+    regs.(reg d) <- force (rt_list_map (fun x -> force (rt_add x k)) regs.(reg s)); (VLuaNil, rest)
+  | "dictfrom" :: d :: s :: rest -> regs.(reg d) <- force (rt_dict_from_list regs.(reg s)); (VLuaNil, rest)
+  | "setfrom" :: d :: s :: rest -> regs.(reg d) <- force (rt_set_from_list regs.(reg s)); (VLuaNil, rest)
+  | t :: _ -> failwith ("bad multi op " ^ t)
+  | [] -> failwith "multi op expected"
+
+let run_multi (nregs : int) (n : int) (toks : string list) : string =
+  let b = Buffer.create 256 in
+  Buffer.add_string b "H";
+  let regs = Array.make nregs (VList []) and toks = ref toks in
+  (try
+     for _ = 1 to n do
+       let (o, r) = multi_step regs !toks in
+       toks := r;
+       Buffer.add_string b (" " ^ show o);
+       Array.iter (fun v -> Buffer.add_string b ("/" ^ show_reg v)) regs
+     done
+   with Lua_error -> Buffer.add_string b " ERR" | Unsupported -> Buffer.add_string b " UNSUP");
+  Buffer.contents b
+
 let run_case (line : string) : string =
   match String.split_on_char ' ' line with
   | "OP2" :: name :: r ->
@@ -219,6 +274,7 @@ let run_case (line : string) : string =
     (match r with n :: r -> run_list init (int_of_string n) r | [] -> failwith "count expected")
   | "DICT" :: n :: r -> run_keyed dict_step rt_dict_new (int_of_string n) r
   | "SET" :: n :: r -> run_keyed set_step rt_set_new (int_of_string n) r
+  | "MULTI" :: k :: n :: r -> run_multi (int_of_string k) (int_of_string n) r
   | _ -> failwith "bad case"
 
 let () =
